@@ -448,7 +448,7 @@ pub async fn run_concurrent_case(backend: &str, seed: u64, rep: &mut Report) -> 
     use sos_remote_sync::AutoMerge;
     let mut rng = Rng::new(seed ^ 0xC09);
     // pre-history: none / one device / all devices edited (no conflict, soft conflict) / server ahead / stale ancestor
-    let pre = *rng.pick(&[0u64, 1, 2, 2, 3, 3, 3, 4, 4, 4]);
+    let pre = *rng.pick(&[0u64, 1, 2, 2, 3, 3, 3, 4, 4, 4, 5, 5]);
     let n_dev = if pre == 4 { 3 } else { rng.range(2, 3) as usize };
     let w = World::new(n_dev, backend).await?;
     let mut script: Vec<String> = vec![format!("world devices={n_dev} backend={backend}")];
@@ -478,8 +478,22 @@ pub async fn run_concurrent_case(backend: &str, seed: u64, rep: &mut Report) -> 
         { let mut a = w.devices[2].lock().await; let (m, s) = note(&format!("b1-{}", rng.below(100000)), "x"); let _ = a.create_secret(m, s, Default::default()).await; }
         script.push("pre-history stale-ancestor: d1 old offline edit; d0 edit+sync; d2 sync; d0 edit+sync; d2 offline edit".into());
     }
+    // pre-history 5: a second folder every device has; d0 adds a secret to it and makes an account event (new folder),
+    // d1 deletes the folder; both offline.  A schedule d1:status d0:status d0:sync d1:sync makes d1's sync request stale.
+    let mut forced: Vec<usize> = vec![];
+    if pre == 5 {
+        use sos_client_storage::{AccessOptions, NewFolderOptions};
+        let shared = { let mut a = w.devices[0].lock().await; let f = *a.create_folder(NewFolderOptions::new("shared".into())).await?.folder.id();
+            let (m, s) = note("in-shared", "v0"); a.create_secret(m, s, AccessOptions { folder: Some(f), ..Default::default() }).await?; f };
+        for _ in 0..2 { for k in 0..n_dev { let _ = w.sync(k).await; } }
+        { let mut a = w.devices[0].lock().await;
+          let (m, s) = note(&format!("late-{}", rng.below(100000)), "x"); let _ = a.create_secret(m, s, AccessOptions { folder: Some(shared), ..Default::default() }).await;
+          if rng.chance(3, 4) { let _ = a.create_folder(NewFolderOptions::new(format!("other-{}", rng.below(100000)))).await; } }
+        { let mut a = w.devices[1].lock().await; let r = a.delete_folder(&shared).await; script.push(format!("pre-history folder-deleted-vs-edited: d0 secret into shared folder (+ new folder); d1 delete shared folder -> {}", r.is_ok())); }
+        if rng.chance(2, 3) { forced = vec![1, 0, 0, 0, 0, 0, 0, 0, 0]; }
+    }
     for k in 0..n_dev {
-        if pre == 4 || pre == 0 || (pre == 1 && k > 0) || (pre == 3 && k == 0) { continue; }
+        if pre == 5 || pre == 4 || pre == 0 || (pre == 1 && k > 0) || (pre == 3 && k == 0) { continue; }
         let before = w.device_logs(k).await;
         let mut a = w.devices[k].lock().await;
         for _ in 0..rng.range(1, 3) {
@@ -493,7 +507,7 @@ pub async fn run_concurrent_case(backend: &str, seed: u64, rep: &mut Report) -> 
         let after = w.device_logs(k).await;
         for (name, recs) in &after { let b = before.get(name).map(|v| v.len()).unwrap_or(0); for r in recs.iter().skip(b) { committed.entry(name.clone()).or_default().push(r.0.clone()); } }
     }
-    rep.count(&format!("pre-history:{}", ["none", "one-device", "all-devices", "server-ahead-others-edited", "stale-ancestor"][pre as usize]));
+    rep.count(&format!("pre-history:{}", ["none", "one-device", "all-devices", "server-ahead-others-edited", "stale-ancestor", "folder-deleted-vs-edited"][pre as usize]));
     // concurrent sync calls under the scheduler
     let (tx, mut rx) = tokio::sync::mpsc::unbounded_channel::<Waiting>();
     let mut handles = vec![];
@@ -517,7 +531,8 @@ pub async fn run_concurrent_case(backend: &str, seed: u64, rep: &mut Report) -> 
     note_server(&mut ever, &w.server_logs().await);
     let deadline = std::time::Instant::now() + std::time::Duration::from_secs(40);
     let mut hang = false;
-    let mut steps = 0;
+    let mut steps: usize = 0;
+    let mut stale_drop = false;
     let mut last: Option<usize> = None;
     'outer: loop {
         for k in 0..n_dev {
@@ -533,7 +548,7 @@ pub async fn run_concurrent_case(backend: &str, seed: u64, rep: &mut Report) -> 
         let ready: Vec<usize> = (0..n_dev).filter(|k| waiting[*k].is_some()).collect();
         if ready.is_empty() { break; }
         // bursts: keep releasing the same device's requests with probability 2/3
-        let k = match last { Some(l) if ready.contains(&l) && rng.chance(2, 3) => l, _ => *rng.pick(&ready) };
+        let k = match last { _ if steps < forced.len() && ready.contains(&forced[steps]) => forced[steps], Some(l) if ready.contains(&l) && rng.chance(2, 3) => l, _ => *rng.pick(&ready) };
         last = Some(k);
         let wt = waiting[k].take().unwrap();
         let before = w.server_logs().await;
@@ -552,9 +567,17 @@ pub async fn run_concurrent_case(backend: &str, seed: u64, rep: &mut Report) -> 
         let after = w.server_logs().await;
         note_server(&mut ever, &after);
         // the server's logs only ever change by whole accepted patches: old ++ patch, or (rewound prefix) ++ patch
+        let account_changed = before.get("account") != after.get("account");
         for (name, old) in &before {
             let new = after.get(name).cloned().unwrap_or_default();
             if &new == old { continue; }
+            if name.starts_with("folder:") && !after.contains_key(name) {
+                // the folder is gone: only an accepted account patch (with the delete event) may do that
+                if !account_changed {
+                    rep.spec_fail("c09-refused-account-patch-changed-server-folders", json!({"case_seed": seed, "backend": backend, "script": script, "log": name, "request": req, "events": old.len()}), "a request whose account patch was not applied removed a folder and the events the server had accepted for it");
+                }
+                continue;
+            }
             let common = old.iter().zip(new.iter()).take_while(|(a, b)| a == b).count();
             let is_append = common == old.len();
             if !is_append && req != "patch" && req != "update" {
@@ -567,6 +590,7 @@ pub async fn run_concurrent_case(backend: &str, seed: u64, rep: &mut Report) -> 
                 // the log is a proper prefix of what it was: the request rewound and applied nothing (a refused patch must roll back)
                 rep.spec_fail("c09-refused-patch-left-server-log-rewound", json!({"case_seed": seed, "backend": backend, "script": script, "log": name, "request": req, "dropped": dropped.len()}), "a request that applied no patch left the server log truncated: events the server had accepted are gone");
             } else if !dropped.is_empty() {
+                stale_drop = true;
                 rep.spec_fail("c09-accepted-event-dropped-by-stale-rewind", json!({"case_seed": seed, "backend": backend, "script": script, "log": name, "request": req, "dropped": dropped.len()}), "a rewind-and-patch request removed events the server had accepted from another device and did not re-apply them");
             }
         }
@@ -583,18 +607,24 @@ pub async fn run_concurrent_case(backend: &str, seed: u64, rep: &mut Report) -> 
         rep.count(&format!("result:{}", r.split(':').next().unwrap()));
         if r.starts_with("task-panic") { rep.spec_fail("c09-sync-call-panicked", json!({"case_seed": seed, "backend": backend, "script": script}), &r); }
     }
-    rep.count_n("requests-scheduled", steps);
+    rep.count_n("requests-scheduled", steps as u64);
     // one further sequential round (twice) must converge as in C04
     for _ in 0..2 { for k in 0..n_dev { let r = w.sync(k).await; script.push(format!("sync d{k} -> {:?}", r)); } }
     let ss = w.server_status().await;
     let mut converged = true;
     for k in 0..n_dev { if w.device_status(k).await != ss { converged = false; } }
     if !converged {
-        rep.spec_fail("c09-no-convergence-after-extra-round", json!({"case_seed": seed, "backend": backend, "script": script}), "after the concurrent syncs and two further sequential rounds the replicas differ");
+        let mut logs = BTreeMap::new();
+        let short = |m: BTreeMap<String, Recs>| -> BTreeMap<String, Vec<String>> { m.into_iter().map(|(n, r)| (n, r.into_iter().map(|x| x.0[..6].to_string()).collect())).collect() };
+        logs.insert("server".to_string(), short(w.server_logs().await));
+        for k in 0..n_dev { logs.insert(format!("d{k}"), short(w.device_logs(k).await)); }
+        script.push(format!("logs at the end: {}", serde_json::to_string(&logs).unwrap_or_default()));
+        rep.spec_fail(if pre == 5 { "c09-no-convergence-after-extra-round-folder-deleted-vs-edited" } else if stale_drop { "c09-no-convergence-after-stale-rewind-dropped-events" } else { "c09-no-convergence-after-extra-round" }, json!({"case_seed": seed, "backend": backend, "script": script}), "after the concurrent syncs and two further sequential rounds the replicas differ");
     }
     // every event the server ever accepted is still there
     let fin = w.server_logs().await;
     for (name, set) in &ever {
+        if name.starts_with("folder:") && !fin.contains_key(name) { continue; }   // deleted folder (checked per step above)
         let have: std::collections::BTreeSet<&String> = fin.get(name).map(|v| v.iter().map(|r| &r.0).collect()).unwrap_or_default();
         let lost = set.iter().filter(|c| !have.contains(c)).count();
         if lost > 0 {
@@ -630,7 +660,7 @@ pub fn run_sched(cli: &Cli) {
         }
     }
     rep.rule = format!("{n} cases per backend: 2-3 real devices whose sync calls run concurrently against one real server storage; the harness releases one request \
-        (status / sync / scan / diff / patch) at a time in a generated order; pre-histories: no edits, one device edited (fast-forward), all devices edited (soft conflict, distinct events), server ahead, stale ancestor (an old offline edit of a third device is merged before another device's ancestor); bursty schedules; \
+        (status / sync / scan / diff / patch) at a time in a generated order; pre-histories: no edits, one device edited (fast-forward), all devices edited (soft conflict, distinct events), server ahead, stale ancestor (an old offline edit of a third device is merged before another device's ancestor), folder deleted on one device while another adds events to it and to the account log (two thirds of these with the order status(d1) then d0's whole sync then d1's stale sync request); bursty schedules; \
         then two sequential rounds; non-trivial = some device had edits");
     rep.write(&cli.out);
 }
